@@ -31,13 +31,14 @@ def r1(ctx):
         problems = []
         for r in ok_rets:
             atoms = set((a[0], a[1]) for a in fn.atoms(r))
-            if any(k.startswith('(result == #0)') and not p for k, p in atoms) or any('(index == #0)' in k and not p for k, p in atoms):
+            rk = fn.key(fn.nodes[r]['val'])
+            if any(k.startswith('(%s == #0)' % rk) and not p for k, p in atoms):
                 continue   # error return of a non-OK result variable
             if fn.val(fn.nodes[r]['val']) not in (0, None):
                 continue
             if not adj or fn.reaches_point(fn.entry, fn.pos(r), adj):
                 # is this return reachable with success? returns of the variable `result` after the write check
-                if ('(result == #0)', True) in atoms or fn.val(fn.nodes[r]['val']) == 0:
+                if ('(%s == #0)' % rk, True) in atoms or fn.val(fn.nodes[r]['val']) == 0:
                     problems.append('successful return at line %d not preceded by adjustHeader()' % fn.line_of(r))
         # adjustHeader after the data write
         if adj and writes:
@@ -58,8 +59,8 @@ def r1(ctx):
                     key=lambda c: (fn.line_of(c), c)):
         seq.append(fn.key(fn.nodes[c]['args'][0]))
     part = [c for c in fn.all('CXXMemberCallExpr') if (fn.nodes[c].get('callee') or '').endswith('::prepareMasterPart')]
-    want = ['srcAddress', ('this.m_dstAddress', 'dstAddress'), 'this.m_id[#0]', 'this.m_id[#1]']
-    ok = len(seq) == 5 and seq[0] == 'srcAddress' and set(seq[1:3]) == {'this.m_dstAddress', 'dstAddress'} and \
+    srcp, dstp = fn.P(1), fn.P(2)
+    ok = len(seq) == 5 and seq[0] == srcp and set(seq[1:3]) == {'this.m_dstAddress', dstp} and \
         seq[3:] == ['this.m_id[#0]', 'this.m_id[#1]'] and bool(part) and all(fn.line_of(part[0]) > 0 for _ in [0])
     clr = [c for c in fn.all('CXXMemberCallExpr') if (fn.nodes[c].get('callee') or '').endswith('::clear')]
     ok = ok and bool(clr)
@@ -127,14 +128,31 @@ def r4(ctx):
                     key=lambda c: (fn.line_of(c), c))
     keys = [fn.key(fn.nodes[c]['args'][0]) for c in pushes]
     loops = [(fn.key(fn.nodes[l]['cond']) if 'cond' in fn.nodes[l] else '') for l in fn.all('ForStmt')]
-    ok = len(keys) == 3 and keys[0] in ('(ebusd::symbol_t)((id.size() - #2) + addData)', '((id.size() - #2) + addData)') and \
-        keys[1] == 'id[i]' and keys[2] == 'allData.dataAt((pos + i))' and '(i < id.size())' in loops and '(i < addData)' in loops
-    inits = [fn.val(dd.get('init')) for l in fn.all('ForStmt') for dd in fn.nodes.get(fn.nodes[l].get('init'), {}).get('decls', [])]
+    import re
+    ok = False
+    okb = False
+    m0 = re.match(r'^(?:\(ebusd::symbol_t\))?\(\((\w+)\.size\(\) - #2\) \+ (\w+)\)$', keys[0]) if len(keys) == 3 else None
+    if m0:
+        idv, addv = m0.group(1), m0.group(2)
+        m1 = re.match(r'^(\w+)\[(\w+)\]$', keys[1])
+        m2 = re.match(r'^(\w+)\.dataAt\(\((\w+) \+ (\w+)\)\)$', keys[2])
+        if m1 and m2 and m1.group(1) == idv:
+            allv, posv = m2.group(1), m2.group(2)
+            idx = fn.P(0)
+            id_init = [fn.key(rhs) for nid, d, rhs, op, lhs in fn.assignments() if d and d.split(':')[-1] == idv and rhs is not None]
+            ok = '(%s < %s.size())' % (m1.group(2), idv) in loops and '(%s < %s)' % (m2.group(3), addv) in loops and \
+                all('this.m_ids[%s]' % idx in k for k in id_init) and bool(id_init)
+            # the ID tail loop starts at 2, the data loop at 0
+            starts = {}
+            for l in fn.all('ForStmt'):
+                for dd in fn.nodes.get(fn.nodes[l].get('init'), {}).get('decls', []):
+                    starts[fn.key(fn.nodes[l]['cond']) if 'cond' in fn.nodes[l] else ''] = fn.val(dd.get('init'))
+            ok = ok and starts.get('(%s < %s.size())' % (m1.group(2), idv)) == 2 and starts.get('(%s < %s)' % (m2.group(3), addv)) == 0
+            rets = [r for r in fn.all('ReturnStmt') if fn.val(fn.nodes[r].get('val')) not in (0, None)]
+            okb = any('((%s + %s) <= %s.getDataSize())' % (posv, addv, allv) in k and not p for r in rets for k, p in ((a[0], a[1]) for a in fn.atoms(r)))
     ctx.ob('C09.R4', fn, fn.body, ok, 'NN of a chained part', 'pushes %s; loops %s' % (keys, loops))
     # the slice must lie inside the written data
-    rets = [r for r in fn.all('ReturnStmt') if fn.val(fn.nodes[r].get('val')) not in (0, None)]
-    okb = any('((pos + addData) <= allData.getDataSize())' in k and not p for r in rets for k, p in ((a[0], a[1]) for a in fn.atoms(r)))
-    ctx.ob('C09.R4', fn, fn.body, okb, 'slice bound', 'pos+addData checked against the data size: %s' % okb)
+    ctx.ob('C09.R4', fn, fn.body, okb, 'slice bound', 'slice start + length checked against the data size: %s' % okb)
 
 
 def run(ctx):
